@@ -2,6 +2,7 @@ import Jap.Core.Namespace
 import Jap.Gen.NsTables
 import Jap.Lemmas.NamespaceRun
 import Jap.Lemmas.NamespaceSpec
+import Jap.Lemmas.NamespaceDict
 /-!
 # C11 — Namespace behaves as a nested mapping addressed by dotted keys
 
@@ -172,6 +173,35 @@ theorem C11_itemsPref_plain (b : Bool) (pre : String) : ∀ kvs : KV,
   | (k, .dct _) :: r => by simp [absKV, absV, itemsPref, unmark, plain, C11_itemsPref_plain b pre r]
 end
 
+/-! `as_dict()` returns plain keys: it does not see the marks either -/
+mutual
+theorem C11_as_dict_plain : ∀ kvs : KV, asDict (absKV kvs) = asDict kvs
+  | [] => rfl
+  | (k, v) :: r => by
+    simp only [absKV, asDict, unmark, plain, C11_as_dictV_plain v, C11_as_dict_plain r]
+theorem C11_as_dictV_plain : ∀ v : V, asDictV (absV v) = asDictV v
+  | .ns sub => by simp only [absV, asDictV, C11_as_dict_plain sub]
+  | .none => rfl
+  | .atom _ => rfl
+  | .lst _ => rfl
+  | .tup _ => rfl
+  | .dct _ => rfl
+end
+
+/-- conversion from and to dictionaries: `dict_to_namespace(d).as_dict() == d` for every plain nested dictionary
+    (string keys without ".", pairwise different at each level, lists holding no dictionaries), of any depth;
+    the fuel of the model's `expand_dict` only has to exceed twice the nesting depth -/
+theorem C11_dict_roundtrip (clash : List String) (n : Nat) (d : KV)
+    (hp : plainKV d = true) (hn : nodupKV d) (hf : 2 * depthKV d + 2 ≤ n) :
+    ∃ r, expandDict clash n d = .ok r ∧ asDict r = d :=
+  (dict_roundtrip clash n).1 d hp hn hf
+
+/-- … and a list that mixes dictionaries with other values does NOT come back (`as_dict` only converts lists made of
+    namespaces): the hypothesis on lists is forced -/
+theorem C11_dict_roundtrip_mixed_list_counterexample :
+    (expandDict [] 4 [(plain "a", .lst [.dct [(plain "b", .atom 1)], .atom 2])]).map asDict
+      = .ok [(plain "a", .lst [.ns [(plain "b", .atom 1)], .atom 2])] := by rfl
+
 /-! ## non-vacuity: the hypotheses are met by non-trivial states, with the regenerated clash table -/
 
 /-- `keys`, `items`, `get` … really are in the table regenerated from `dir(Namespace)` -/
@@ -185,6 +215,9 @@ example :
     safe clash [.set ["a", "get"] "pop" (.atom 3), .del ["a"] "keys", .pop [] "items", .setU ["a"] "x" (.atom 4)] root = true
     ∧ safe clash (updateOps true ["a"] (itemsSegs false [(mark clash "values", .ns [(mark clash "b", .atom 7)])])) root = true := by
   decide
+
+example : plainKV [(plain "a", .dct [(plain "keys", .lst [.atom 1, .tup [.atom 2]]), (plain "b", .none)]), (plain "items", .atom 3)] = true
+    ∧ 2 * depthKV [(plain "a", .dct [(plain "keys", .lst [.atom 1]), (plain "b", .none)]), (plain "items", .atom 3)] + 2 ≤ 64 := by decide
 
 /-! ## the full statement fails through dict values (open finding C11-through-dict) -/
 
